@@ -102,7 +102,7 @@ theorem commandService_ring (D : Desc) (s : St) (i : SvcIn) : Keeps (RingInv D) 
   · exact hi.congr (by simp [processIdleState]; rr)
   · exact hi.congr (by simp [parsePrefix, prepareParseCommand]; rr)
   · exact hi.congr (by simp [parseCommand, prepareSearchCommand]; rr)
-  · exact hi.congr (by simp [updateCommand, prepareSearchCommand]; rr)
+  · exact hi.congr (by simp [updateCommand, updateAdvance, updateLane, prepareSearchCommand]; rr)
   · exact hi.congr (by simp [waitReadAcknowledge, prepareSearchCommand]; rr)
   · exact hi.congr (by simp [searchCommand, notFoundOrError]; rr)
   · exact hi.congr (by simp [commandFound]; rr)
